@@ -6,8 +6,23 @@
 
   x/lockup: M-Lockup's chain (messages, blocks, restarts, parameter changes — Model/LockupChain) under
   the encoding `embState` (Lemmas/LockupChainEmbed).
+  x/lightclient: M-LC (Model/LC, C09) under the projection `toLcState` (Lemmas/GenesisLinkLC): `LcInv`
+  is M-LC's `MapsInv`.
+  x/delayedack: M-Packets (Model/Packets, C04 / C05) under `toDaState` (Lemmas/GenesisLinkDa): `DaInv`
+  from `Inv04` (`InvF.keys`) and `IdxInv` (`fwd` / `bwd`, and the new conjunct of `PktOk`: every stored
+  packet has one of the three real types).
+  x/sponsorship: M-Spons (Model/Spons, C16) under `toSponsState` (Lemmas/GenesisLinkSpons): `SponsInv.own`
+  is M-Spons `DvpClean`, which C16 proves for slash-free histories with faithful staking ops
+  (`RunFaithful`: the histories on which the recorded powers are defined at all — a slash is C16's
+  listed finding); the votes' well-formedness is `WF.votes`.
+  Not linked yet (still a hypothesis of Props/C18Modules, named in the registry's trusted base): dymns.
 -/
 import DymVerif.Lemmas.GenesisLink
+import DymVerif.Lemmas.GenesisLinkLC
+import DymVerif.Lemmas.GenesisLinkDa
+import DymVerif.Lemmas.GenesisLinkSpons
+import DymVerif.Props.C04
+import DymVerif.Props.C16
 import DymVerif.Props.C18Modules
 namespace DymVerif.C18L
 open DymVerif DymVerif.Genesis DymVerif.GenesisLink
@@ -39,7 +54,118 @@ theorem lockup_any_order_reachable (params : Nat) (p : Lockup.Params) (bal : Loc
   C18M.lockup_any_order _ (lockupInv_reachable params p bal now height ops) l hp
 
 /-- non-vacuity: a chain that locked, began to unlock and restarted -/
-example : (Lockup.embState 7 (Lockup.crun (Lockup.cinit (Lockup.defaultParams 0) (fun _ _ => 1000) 5 1)
+example : (Lockup.embState 7 (Lockup.crun (Lockup.cinit { minDur := 0, fee := 1, allowed := [], feeDenom := 0 } (fun _ _ => 1000) 5 1)
     [.msg (.lock 0 0 10 100), .msg (.lock 1 0 20 50), .restart]).s).locks.map (·.1) = [1, 2] := by decide
+
+/-! ## x/delayedack -/
+
+/-- **delayedack_roundtrip_reachable** — after every history of M-Packets (IBC packets received, sent,
+    acknowledged, timed out; finalization; eIBC fulfilment; state updates, hard forks, epochs; any
+    channel table without separator bytes in its ids) with uint64 heights and sequences, the packets and
+    the pending-by-address index survive export → import exactly -/
+theorem delayedack_roundtrip_reachable (params n : Nat) (fund : Int) (a b c : Dec) (r0 r1 : Bytes)
+    (ch : List Packets.Chan) (hc : Packets.CfgOk (Packets.initSt n fund a b c r0 r1 ch))
+    (ops : List Packets.Op) (hb : ∀ o ∈ ops, Packets.BoundedOp o) :
+    importDa (exportDa (toDaState params (Packets.run (Packets.initSt n fund a b c r0 r1 ch) ops))) =
+      some (toDaState params (Packets.run (Packets.initSt n fund a b c r0 r1 ch) ops)) :=
+  C18M.delayedack_roundtrip _
+    (daInv_run params ops hb (Packets.inv_init n fund a b c r0 r1 ch) (C04.idx_init n fund a b c r0 r1 ch hc))
+
+/-- the projection keeps what the module's queries see: a packet is stored under its own key, and the
+    index answers for an address exactly as M-Packets' index does -/
+theorem toDaState_faithful (params : Nat) {s : Packets.St} (h4 : Packets.Inv04 s) :
+    (∀ p ∈ s.packets, (Packets.pkey p, toDPacket p) ∈ (toDaState params s).packets) ∧
+    (∀ a k, (([a], k), ()) ∈ (toDaState params s).byAddr ↔ (a, k) ∈ s.byAddr) := by
+  refine ⟨fun p hp => (mem_toDa_packets params h4.keys _).2 ⟨p, hp, rfl⟩, fun a k => ?_⟩
+  rw [mem_toDa_byAddr]
+  constructor
+  · rintro ⟨x, hx, he⟩
+    have e1 : [a] = [x.1] := congrArg Prod.fst he
+    have e2 : k = x.2 := congrArg Prod.snd he
+    injection e1 with e1
+    have : (a, k) = x := Prod.ext e1 e2
+    rw [this]; exact hx
+  · intro h; exact ⟨(a, k), h, rfl⟩
+
+/-! ## x/sponsorship -/
+
+/-- **sponsorship_roundtrip_reachable** (what survives; endorsements and the claim blacklist do not:
+    `sponsorship_roundtrip_counterexample`) — after every slash-free history of M-Spons from genesis
+    whose staking ops are faithful (votes, revocations, staking hooks, claims, epoch ends, gauge / rollapp
+    creation, parameter changes), the votes, the per-validator power records and the params survive
+    export → import, and the recomputed distribution is, gauge by gauge, the sum over the votes -/
+theorem sponsorship_roundtrip_reachable (params : Nat) (ma mv : Int) (hmv : 0 ≤ mv) (ops : List Spons.Op)
+    (hf : Spons.RunFaithful ops) :
+    (importSpons (exportSpons (toSponsState params (Spons.run (Spons.State.init ma mv) ops)))).votes =
+      (toSponsState params (Spons.run (Spons.State.init ma mv) ops)).votes ∧
+    (importSpons (exportSpons (toSponsState params (Spons.run (Spons.State.init ma mv) ops)))).dvp =
+      (toSponsState params (Spons.run (Spons.State.init ma mv) ops)).dvp ∧
+    (importSpons (exportSpons (toSponsState params (Spons.run (Spons.State.init ma mv) ops)))).params = params ∧
+    (∀ g, Spons.gget (importSpons (exportSpons (toSponsState params (Spons.run (Spons.State.init ma mv) ops)))).dist.gauges g =
+      (((toSponsState params (Spons.run (Spons.State.init ma mv) ops)).votes.map (·.2)).map fun v => v.pow g).sum) ∧
+    (importSpons (exportSpons (toSponsState params (Spons.run (Spons.State.init ma mv) ops)))).dist.vp =
+      (((toSponsState params (Spons.run (Spons.State.init ma mv) ops)).votes.map (·.2)).map (·.vp)).sum := by
+  have ht := (Props.C16.power_tracks_staking_partial _ ops (Props.C16.init_tracked ma mv) hf).1
+  have hw := (Props.C16.world_from_init ma mv hmv ops).1
+  refine C18M.sponsorship_roundtrip_partial _ (sponsInv_of_clean params ht.clean) ?_
+  intro e he
+  obtain ⟨a, v, hl, rfl⟩ := (mem_toSpons_votes params _ e).1 he
+  exact hw.votes (a, v) (Spons.alookup_mem hl)
+
+/-- … and the exported genesis is a fixed point -/
+theorem sponsorship_export_import_export_reachable (params : Nat) (ma mv : Int) (ops : List Spons.Op)
+    (hf : Spons.RunFaithful ops) :
+    exportSpons (importSpons (exportSpons (toSponsState params (Spons.run (Spons.State.init ma mv) ops)))) =
+      exportSpons (toSponsState params (Spons.run (Spons.State.init ma mv) ops)) :=
+  C18M.sponsorship_export_import_export _
+    (sponsInv_of_clean params (Props.C16.power_tracks_staking_partial _ ops (Props.C16.init_tracked ma mv) hf).1.clean)
+
+/-! ## x/lightclient -/
+
+/-- the projection answers as M-LC's first-match lookup does: it is the same map -/
+theorem toLcState_canonical_faithful (s : LC.St) (r c : Nat) :
+    (([r], [c]) ∈ (toLcState s).r2c ↔ LC.lookup s.r2c r = some c) ∧
+    (([c], [r]) ∈ (toLcState s).c2r ↔ LC.lookup s.c2r c = some r) := by
+  constructor
+  · show _ ∈ kvOfAssoc s.r2c ↔ _
+    rw [mem_kvOfAssoc]
+    constructor
+    · rintro ⟨a, b, hl, e⟩
+      injection e with e1 e2
+      injection e1 with e1; injection e2 with e2
+      rw [e1, e2]; exact hl
+    · intro hl; exact ⟨r, c, hl, rfl⟩
+  · show _ ∈ kvOfAssoc s.c2r ↔ _
+    rw [mem_kvOfAssoc]
+    constructor
+    · rintro ⟨a, b, hl, e⟩
+      injection e with e1 e2
+      injection e1 with e1; injection e2 with e2
+      rw [e1, e2]; exact hl
+    · intro hl; exact ⟨c, r, hl, rfl⟩
+
+/-- **lightclient_canonical_and_signers_survive_reachable** — after every history of M-LC (client
+    creation, updates, designation, misbehaviour, hard forks, the M-Core ops underneath) the canonical
+    clients in both directions and the signer set survive export → import -/
+theorem lightclient_canonical_and_signers_survive_reachable (p : Core.Params) (ops : List LC.Op) :
+    ∃ t, importLc (exportLc (toLcState (LC.run (LC.init p) ops))) = some t ∧
+      t.r2c = (toLcState (LC.run (LC.init p) ops)).r2c ∧ t.c2r = (toLcState (LC.run (LC.init p) ops)).c2r ∧
+      t.signers = (toLcState (LC.run (LC.init p) ops)).signers :=
+  C18M.lightclient_canonical_and_signers_survive _ (lcInv_reachable p ops)
+
+/-- … and the exported genesis is a fixed point -/
+theorem lightclient_export_import_export_reachable (p : Core.Params) (ops : List LC.Op) :
+    (importLc (exportLc (toLcState (LC.run (LC.init p) ops)))).map exportLc =
+      some (exportLc (toLcState (LC.run (LC.init p) ops))) :=
+  C18M.lightclient_export_import_export _ (lcInv_reachable p ops)
+
+/-- … the whole state when the height → signer map names exactly the recorded signers -/
+theorem lightclient_roundtrip_reachable_partial (p : Core.Params) (ops : List LC.Op)
+    (hex : SignersExact (toLcState (LC.run (LC.init p) ops))) :
+    importLc (exportLc (toLcState (LC.run (LC.init p) ops))) = some (toLcState (LC.run (LC.init p) ops)) :=
+  C18M.lightclient_roundtrip_partial _ (lcInv_reachable p ops) hex
+
+/-- non-vacuity of the projection: shadowed entries of the association lists do not reach the sections -/
+example : kvOfAssoc [(2, 7), (1, 5), (2, 9)] = [([1], [5]), ([2], [7])] := by decide
 
 end DymVerif.C18L
